@@ -135,6 +135,33 @@ func RegisterSpecs(c *Ctx) {
 			return vc.Val{T: r, Ty: types.Typ[types.Bool]}, err
 		}
 	}
+	three := func(name string, f func(env *vc.SpecEnv, t *geval.SymType, a, b vc.Val) (smt.T, error)) {
+		e.Specs[name] = func(e *vc.Engine, env *vc.SpecEnv, args []spec.Expr) (vc.Val, error) {
+			if len(args) != 3 {
+				return vc.Val{}, fmt.Errorf("spec: %s(T, a, b)", name)
+			}
+			t, err := argType(env, args[0])
+			if err != nil {
+				return vc.Val{}, err
+			}
+			a, err := e.EvalSpec(env, args[1])
+			if err != nil {
+				return vc.Val{}, err
+			}
+			b, err := e.EvalSpec(env, args[2])
+			if err != nil {
+				return vc.Val{}, err
+			}
+			r, err := f(env, t, a, b)
+			return vc.Val{T: r, Ty: types.Typ[types.Int]}, err
+		}
+	}
+	three("CmpTop", func(env *vc.SpecEnv, t *geval.SymType, a, b vc.Val) (smt.T, error) {
+		return c.CmpTop(env, t, a.T, b.T, 0)
+	})
+	three("CmpC", func(env *vc.SpecEnv, t *geval.SymType, a, b vc.Val) (smt.T, error) {
+		return c.CmpC(env, t, a.T, b.T, 0)
+	})
 	two("EqC", func(env *vc.SpecEnv, t *geval.SymType, a, b vc.Val) (smt.T, error) { return c.EqC(env, t, a.T, b.T, 0) })
 	two("EqTop", func(env *vc.SpecEnv, t *geval.SymType, a, b vc.Val) (smt.T, error) {
 		return c.EqTop(env, t, a.T, b.T, 0)
@@ -230,7 +257,73 @@ func (c *Ctx) eqOpaque(t *geval.SymType, a, b smt.T) smt.T {
 		}
 		return smt.App(smt.Bool, "goeq", tt, a, b)
 	}
+	if !c.E.Decls.HasFun("EqSpec") {
+		// structural equality of an opaque component is an equivalence (the
+		// induction hypothesis of C02's reflexive/symmetric/transitive clause)
+		c.E.Decls.Fun("EqSpec", []smt.Sort{smt.V, smt.V, smt.V}, smt.Bool)
+		t, x, y, z := smt.T{S: "t", Sort: smt.V}, smt.T{S: "x", Sort: smt.V}, smt.T{S: "y", Sort: smt.V}, smt.T{S: "z", Sort: smt.V}
+		eq := func(a, b smt.T) smt.T { return smt.App(smt.Bool, "EqSpec", t, a, b) }
+		bs := []smt.Bound{{Name: "t", Sort: smt.V}, {Name: "x", Sort: smt.V}}
+		c.E.Axioms = append(c.E.Axioms, smt.Forall(bs, eq(x, x), eq(x, x)))
+		bs = append(bs, smt.Bound{Name: "y", Sort: smt.V})
+		c.E.Axioms = append(c.E.Axioms, smt.Forall(bs, smt.Eq(eq(x, y), eq(y, x)), eq(x, y)))
+		bs = append(bs, smt.Bound{Name: "z", Sort: smt.V})
+		c.E.Axioms = append(c.E.Axioms, smt.Forall(bs, smt.Implies(smt.And(eq(x, y), eq(y, z)), eq(x, z)), eq(x, y), eq(y, z)))
+	}
 	return c.uf("EqSpec", smt.Bool, tt, vc.Box(a), vc.Box(b))
+}
+
+// cmpOpaque: the three-way comparison of an opaque component: a total preorder
+// with values in {-1,0,1} whose zero set is structural equality (C03's lemmas,
+// used here as the induction hypothesis / helper contract).
+func (c *Ctx) cmpOpaque(t *geval.SymType, a, b smt.T) smt.T {
+	tt := c.typeVal(t).T
+	if !c.E.Decls.HasFun("CmpSpec") {
+		c.E.Decls.Fun("CmpSpec", []smt.Sort{smt.V, smt.V, smt.V}, smt.Int)
+		ty, x, y, z := smt.T{S: "t", Sort: smt.V}, smt.T{S: "x", Sort: smt.V}, smt.T{S: "y", Sort: smt.V}, smt.T{S: "z", Sort: smt.V}
+		cmp := func(a, b smt.T) smt.T { return smt.App(smt.Int, "CmpSpec", ty, a, b) }
+		bs := []smt.Bound{{Name: "t", Sort: smt.V}, {Name: "x", Sort: smt.V}, {Name: "y", Sort: smt.V}}
+		c.E.Axioms = append(c.E.Axioms, smt.Forall(bs, smt.And(smt.Le(smt.IntLit(-1), cmp(x, y)), smt.Le(cmp(x, y), smt.IntLit(1)), smt.Eq(cmp(x, y), smt.Neg(cmp(y, x)))), cmp(x, y)))
+		bs3 := append(bs, smt.Bound{Name: "z", Sort: smt.V})
+		c.E.Axioms = append(c.E.Axioms, smt.Forall(bs3, smt.Implies(smt.And(smt.Le(cmp(x, y), smt.IntLit(0)), smt.Le(cmp(y, z), smt.IntLit(0))), smt.Le(cmp(x, z), smt.IntLit(0))), cmp(x, y), cmp(y, z)))
+		c.E.Axioms = append(c.E.Axioms, smt.Forall(bs3, smt.Implies(smt.And(smt.Le(cmp(x, y), smt.IntLit(0)), smt.Lt(cmp(y, z), smt.IntLit(0))), smt.Lt(cmp(x, z), smt.IntLit(0))), cmp(x, y), cmp(y, z)))
+		c.E.Axioms = append(c.E.Axioms, smt.Forall(bs3, smt.Implies(smt.And(smt.Lt(cmp(x, y), smt.IntLit(0)), smt.Le(cmp(y, z), smt.IntLit(0))), smt.Lt(cmp(x, z), smt.IntLit(0))), cmp(x, y), cmp(y, z)))
+	}
+	return smt.App(smt.Int, "CmpSpec", tt, vc.Box(a), vc.Box(b))
+}
+
+func sign3(lt, eq smt.T) smt.T {
+	return smt.Ite(lt, smt.IntLit(-1), smt.Ite(eq, smt.IntLit(0), smt.IntLit(1)))
+}
+
+// CmpC: comparison at a component (a user Compare method decides where one exists).
+func (c *Ctx) CmpC(env *vc.SpecEnv, t *geval.SymType, a, b smt.T, depth int) (smt.T, error) {
+	if c.hasUserMethod(t, "compare.compareMethodInputParam") == geval.Yes {
+		return c.uf("userCompare", smt.Int, c.typeVal(t).T, vc.Box(a), vc.Box(b)), nil
+	}
+	return c.CmpTop(env, t, a, b, depth)
+}
+
+// CmpTop: the lexicographic three-way comparison, one level unfolded.
+func (c *Ctx) CmpTop(env *vc.SpecEnv, t *geval.SymType, a, b smt.T, depth int) (smt.T, error) {
+	f := c.In.fact(t)
+	if f == nil || f.Kind == geval.KUnknown || depth > 3 {
+		return c.cmpOpaque(t, a, b), nil
+	}
+	switch f.Kind {
+	case geval.KBasic:
+		switch geval.BasicClass(basicOf(c.In.basicName(t))) {
+		case "integer":
+			return sign3(smt.Lt(a, b), smt.Eq(a, b)), nil
+		case "bool":
+			return sign3(smt.And(smt.Not(a), b), smt.Eq(a, b)), nil
+		case "string":
+			return sign3(smt.App(smt.Bool, "str_lt", a, b), smt.Eq(a, b)), nil
+		case "float":
+			return sign3(smt.App(smt.Bool, "flt_lt", a, b), smt.App(smt.Bool, "flt_eq", a, b)), nil
+		}
+	}
+	return c.cmpOpaque(t, a, b), nil
 }
 
 // EqTop: structural equality, one level unfolded.
